@@ -127,6 +127,16 @@ func judgeGenerations(sc *SrvScenario, h *SrvHistory, res *core.Result, staleKin
 			during := "no-catch-up"
 			if catchUpInside(h, q) {
 				during = "catch-up"
+			} else if sc.Cache && bc == "rocksdb" && q.Counters["DNS_cache.hit"] > 0 {
+				// with the cache on, the torn response of a query that was in flight across an in-place
+				// catch-up (the recorded finding) is served again, byte for byte, to a later query that hits
+				// its cache entry before the reload has returned: the same finding, one hop further
+				for _, e := range h.Queries {
+					if e != q && e.Stamp == -2 && e.Q.Q == q.Q.Q && e.Ret != 0 && e.Ret < q.Ret && catchUpInside(h, e) && fmt.Sprint(e.Stamps) == fmt.Sprint(q.Stamps) {
+						during = "catch-up"
+						res.Probe("torn_response_of_a_catch_up_served_again_from_the_cache")
+					}
+				}
 			}
 			sig := fmt.Sprintf("torn-response|backend=%s|during=%s", bc, during)
 			_ = uniq
